@@ -1,1 +1,4 @@
 //! (reserved for hooks of this area; cargo feature `verif_hooks`)
+
+/// Build-layer hooks (`hash_line`, `version_header`, `needs_rebuild`, `crash_point`, `CRASH_POINTS`).
+pub use crate::build::verif_hooks as build;
